@@ -15,7 +15,7 @@ RULE = ('cases: seeded generators for (a) subsample on ordered observation grids
         '(kind, structural signature).')
 ASSUMPTIONS = ['report_times and times are ordered (documented domain)', 'PGF evaluation points lie in (0,1]',
                'estimate_R0 is only judged on graphs with at least one edge']
-REQUIRED = ['subsample_mixed_type_series', 'graphs_edited_in_place_between_calls', 'multigraph_inputs', 'subsample_reports_checked', 'time_shift_checked', 'pgf_points_checked', 'pnk_rows_checked', 'R0_checked',
+REQUIRED = ['subsample_reports_just_before_an_observation', 'subsample_mixed_type_series', 'graphs_edited_in_place_between_calls', 'multigraph_inputs', 'subsample_reports_checked', 'time_shift_checked', 'pgf_points_checked', 'pnk_rows_checked', 'R0_checked',
             'subsample_rejections_checked']
 BUDGET = {'quick': 120, 'thorough': 900}
 
@@ -67,6 +67,11 @@ def _subsample_case(case, res):
     series = [_series() for _ in range(nser)]
     # report times: mix of event times, midpoints, beyond end, repeated
     pool = list(times) + [t + 0.1 for t in times] + [times[-1] + 1, times[-1] + 7.5, times[0]]
+    # report times a hair before an observation (by 3e-9, by a few parts in 1e6, by one unit in the last place): "at or before" is exact
+    near = [x for t in times[1:] for x in (t - 3e-9, t - 2e-6 * max(1.0, abs(t)), np.nextafter(t, -np.inf)) if x >= times[0]]
+    if near and r.random() < 0.5:
+        pool = pool + [float(x) for x in near]
+        bump(res, 'subsample_reports_just_before_an_observation')
     k = r.randint(1, 12)
     reports = sorted(r.choice(pool) for _ in range(k))
     bad = r.random() < 0.15
